@@ -1,10 +1,11 @@
 import LiquerModel.Eval
+import LiquerModel.Ref
 import LiquerModel.Handlers.Token
 
 /-
 Protocol: `eval.session <keep:0|1> <defaults> <op> <op> …` — one whole history on one global cache.
   defaults := `-` | `k=canon,k=canon`         (keys hex)
-  op       := `E:<hex text>` | `V:<hex text>:<canon>` | `XL:<hex text>:<canon>;<canon>…` | `XD:<hex text>:<hexk>=<canon>;…`
+  op       := `E:<hex text>` | `V:<hex text>:<canon>:<0|1>` | `XL:<hex text>:<canon>;<canon>…` | `XD:<hex text>:<hexk>=<canon>;…`
               | `R:<hex key>` | `C`
 Answer: per op `outcome # calls # cache`, ops separated by ` | `.
 -/
@@ -103,10 +104,14 @@ def runOp (env : Env) (w : World) (op : String) : World × String :=
     (r.1, renderOutcome r.2 ++ " # " ++ String.intercalate "," (r.1.calls.map String.ofList) ++ " # " ++ renderCache r.1)
   match op.splitOn ":" with
   | ["E", h] => let t := hexToChars h.toList; fin (evalText env (evalFuel t) w t true)
-  | ["V", h, v] =>
+  | ["V", h, v, ivs] =>
+    -- `evaluate(q, input_value=v)` (`ivs = 0`) or `evaluate_on(v, q)` (`ivs = 1`: NoCache, input value specified)
     let t := hexToChars h.toList
     (match parse env.dec t, valOf v with
-     | some q, some v => fin (evalQ env (evalFuel t) w q t .none (some v) false)
+     | some q, some v =>
+       let input : Option Val := match v with | .none => none | v => some v
+       let plain := input.isNone && ivs != "1"
+       fin (evalQ env (evalFuel t) w q t .none input plain)
      | none, _ => fin (w, .parseError)
      | _, none => (w, "BADINPUT"))
   | ["XL", h, vs] =>
@@ -133,6 +138,37 @@ def evalH (cmd : String) (args : List String) : Option String :=
         let (w, o) := runOp env acc.1 op
         (w, acc.2 ++ [o])) (w0, [])
       String.intercalate " | " outs
+    let a := run (Char.ofNat 0xFFFD)
+    let b := run (Char.ofNat 0xFFFC)
+    if a == b then a else "UNMODELLED"
+  | "eval.ref", [dflt, op] => some <|
+    -- the reference interpretation (specification) of one evaluation: `outcome # calls`
+    let run (sentinel : Char) : String :=
+      let env : Env := { reg := Gen.registry, defaults := kvOf dflt, dec := decWith sentinel }
+      let fin (r : Outcome × List Str) : String := renderOutcome r.1 ++ " # " ++ String.intercalate "," (r.2.map String.ofList)
+      match op.splitOn ":" with
+      | ["E", h] =>
+        let t := hexToChars h.toList
+        (match parse env.dec t with
+         | some q => fin (refQ env (evalFuel t) q t .none none)
+         | none => "PARSEERR # ")
+      | ["V", h, v, _] =>
+        let t := hexToChars h.toList
+        (match parse env.dec t, valOf v with
+         | some q, some v => fin (refQ env (evalFuel t) q t .none (match v with | .none => none | v => some v))
+         | none, _ => "PARSEERR # "
+         | _, none => "BADINPUT")
+      | ["XL", h, vs] =>
+        let t := hexToChars h.toList
+        (match parse env.dec t with
+         | some q => fin (refQ env (evalFuel t) q t (.list ((splitNonEmpty vs ";").filterMap valOf)) none)
+         | none => "PARSEERR # ")
+      | ["XD", h, kv] =>
+        let t := hexToChars h.toList
+        (match parse env.dec t with
+         | some q => fin (refQ env (evalFuel t) q t (.dict (kvOf kv)) none)
+         | none => "PARSEERR # ")
+      | _ => "BADOP"
     let a := run (Char.ofNat 0xFFFD)
     let b := run (Char.ofNat 0xFFFC)
     if a == b then a else "UNMODELLED"
